@@ -248,7 +248,7 @@ Definition die (st : wst) : wst := mkW (w_spk st) (w_mk st) (w_maxid st) (w_vm s
      plain_master_key = random; master_key.vchSalt = random; EncryptMasterKey(pass, plain_master_key, master_key)
      mapMasterKeys[++nMasterKeyMaxID] = master_key;
      encrypted_batch = new WalletBatch(GetDatabase());
-     if (!encrypted_batch->TxnBegin()) { ...; return false; }
+     if (!encrypted_batch->TxnBegin()) { ...; mapMasterKeys.erase(nMasterKeyMaxID--); return false; }   // `chk` (before /repo eec7c54: the new master key stayed in mapMasterKeys)
      if (!encrypted_batch->WriteMasterKey(nMasterKeyMaxID, master_key)) {              // `chk` (before /repo 21144c2: result ignored)
          encrypted_batch->TxnAbort(); ...; mapMasterKeys.erase(nMasterKeyMaxID--); return false; }
      for (spk_man : m_spk_managers) if (!spk_man->Encrypt(plain_master_key, encrypted_batch)) { TxnAbort(); assert(false); }
@@ -266,7 +266,7 @@ Definition encrypt_phase1 (chk : bool) (c : cipher) (st : wst) (pass mk salt : b
   let id := S (w_maxid st) in
   let mks := (id, rec) :: w_mk st in
   let (b, o1) := pop o in
-  if negb b then inl (mkW (w_spk st) mks id (w_vm st) (w_db st) (w_dirty st) (w_dead st), RFalse) else
+  if negb b then inl ((if chk then st else mkW (w_spk st) mks id (w_vm st) (w_db st) (w_dirty st) (w_dead st)), RFalse) else
   let d0 := db_begin (w_db st) in
   let (wm, o2) := pop o1 in
   if negb wm && chk then
